@@ -104,7 +104,11 @@ def scenario(sim):
         run_case(sim, s, case)
     finally:
         s.close()
-    return {"sample": dict(case, steps=[st[:3] for st in case["steps"][:8]]), "nontrivial": True,
+    # distinct = distinct (size, request size, short reads, step-kind sequence with chunk counts)
+    key = "%d|%d|%s|%s" % (case["size"], case["req_size"], case["short_reads"],
+                           " ".join(st[0] + (str(len(st[1])) if st[0] == "readv" else "") for st in case["steps"]))
+    return {"sample": dict(case, steps=[st[:3] for st in case["steps"][:8]]),
+            "nontrivial": any(st[0] in ("prefetch", "readv") for st in case["steps"]), "case_key": key,
             "counts": sorted(set(st[0] for st in case["steps"]))}
 
 
